@@ -338,12 +338,48 @@ func deepWrite(sb *strings.Builder, v reflect.Value, seen map[uintptr]bool, dept
 
 // ---- running a case --------------------------------------------------------
 
+// namesTable is the union of the jobs' (path -> declared name) tables: the one map
+// object a generator typically shares between all the Files it builds.
+func namesTable(cc *ConcCase) map[string]string {
+	t := map[string]string{}
+	for _, j := range cc.Jobs {
+		for _, p := range j.Recipe.Paths {
+			if _, ok := t[p.Path]; !ok {
+				t[p.Path] = p.Name
+			}
+		}
+	}
+	return t
+}
+
+func copyNames(t map[string]string) map[string]string {
+	c := make(map[string]string, len(t))
+	for k, v := range t {
+		c[k] = v
+	}
+	return c
+}
+
+func sameNames(a, b map[string]string) bool {
+	if len(a) != len(b) {
+		return false
+	}
+	for k, v := range a {
+		if w, ok := b[k]; !ok || w != v {
+			return false
+		}
+	}
+	return true
+}
+
 type jobResult struct {
 	hist     []Outcome
 	panicMsg string
 }
 
-func soloRun(j ConcJob) (jobResult, *fileSim) {
+// soloRun runs one job alone; names is the names table it passes to ImportNames
+// (a private copy for reference runs, the shared object for the sequential leg).
+func soloRun(j ConcJob, names map[string]string) (jobResult, *fileSim) {
 	sim := j.Exec.sim()
 	var res jobResult
 	func() {
@@ -352,7 +388,9 @@ func soloRun(j ConcJob) (jobResult, *fileSim) {
 				res.panicMsg = fmt.Sprint(p)
 			}
 		}()
-		res.hist = Exec(j.Recipe, newEnv(sim))
+		env := newEnv(sim)
+		env.SharedNames = names
+		res.hist = Exec(j.Recipe, env)
 	}()
 	return res, sim
 }
@@ -384,7 +422,7 @@ func compareJob(job int, what string, ref, got jobResult) *Violation {
 	return nil
 }
 
-func runInterleaved(cc *ConcCase, estSteps uint64, pristine string, ri *RunInfo) ([]jobResult, *concSim) {
+func runInterleaved(cc *ConcCase, estSteps uint64, pristine string, names map[string]string, ri *RunInfo) ([]jobResult, *concSim) {
 	s := &concSim{spec: cc.Sched, rng: NewRNG(cc.Sched.Seed), mainWake: make(chan struct{}), replay: map[uint64]int{}, changeAt: map[uint64]bool{}}
 	for _, sw := range cc.Sched.Switches {
 		s.replay[sw.At] = sw.To
@@ -425,6 +463,7 @@ func runInterleaved(cc *ConcCase, estSteps uint64, pristine string, ri *RunInfo)
 					}
 				}()
 				env := newEnv(nil)
+				env.SharedNames = names
 				env.RenderHook = func(in bool) { t.inRender = in }
 				results[t.id].hist = execBody(job.Recipe, env, nil)
 			}()
@@ -487,6 +526,17 @@ func genJob(r *RNG, paths []PathSpec, small bool, salt ...string) *Recipe {
 	rec := &Recipe{Paths: g.paths}
 	rec.File = genFileSpec(g, r, true)
 	rec.Ops = append(rec.Ops, genConfigOps(g, r, true)...)
+	if r.Chance(0.35) {
+		// the names table every job of the case shares, then (sometimes) a second, private one
+		rec.Ops = append(rec.Ops, Op{K: "hint_names_shared"})
+		if r.Chance(0.4) {
+			var ps []int
+			for k := r.Range(1, len(g.paths)); k > 0; k-- {
+				ps = append(ps, r.Intn(len(g.paths)))
+			}
+			rec.Ops = append(rec.Ops, Op{K: "hint_names_alt", P: ps})
+		}
+	}
 	for i := r.Range(1, 3); i > 0; i-- {
 		rec.Ops = append(rec.Ops, Op{K: "add", Node: g.decl()})
 	}
@@ -591,11 +641,18 @@ func (propC09) Check(c *Case) (*Violation, *RunInfo) {
 	}
 	// solo references
 	refs := make([]jobResult, len(cc.Jobs))
+	table := namesTable(cc)
+	shared := copyNames(table) // the one object all jobs share outside the reference runs
+	callerMapIntact := func(when string) {
+		if viol == nil && !sameNames(shared, table) {
+			viol = &Violation{Rule: "C09-caller-map-modified", Detail: "the names table passed to ImportNames by several Files was modified by the library " + when + ": one File's hints leak into every other File built from the same table"}
+		}
+	}
 	frozen := &ConcCase{Mode: cc.Mode, Order: cc.Order, Sched: cc.Sched}
 	var est uint64
 	for i, j := range cc.Jobs {
 		var sim *fileSim
-		refs[i], sim = soloRun(j)
+		refs[i], sim = soloRun(j, copyNames(table))
 		globalsChanged(fmt.Sprintf("while job %d was built and rendered alone", i))
 		est += sim.Steps
 		frozen.Jobs = append(frozen.Jobs, ConcJob{Recipe: j.Recipe, Exec: frozenSpec(sim)})
@@ -611,13 +668,13 @@ func (propC09) Check(c *Case) (*Violation, *RunInfo) {
 		// shared Code values, Files rendered one after another
 		ctx := &bctx{paths: cc.Jobs[0].Recipe.Paths}
 		simhook.ResetKeys()
-		var shared []*jen.Statement
+		var sharedFrags []*jen.Statement
 		for _, fr := range cc.Jobs[0].Recipe.Frags {
 			st, ok := ctx.build(fr).(*jen.Statement)
 			if !ok {
 				st = jen.Null()
 			}
-			shared = append(shared, st)
+			sharedFrags = append(sharedFrags, st)
 		}
 		sharedRenders := 0
 		for _, ji := range cc.Order {
@@ -636,7 +693,9 @@ func (propC09) Check(c *Case) (*Violation, *RunInfo) {
 						got.panicMsg = fmt.Sprint(p)
 					}
 				}()
-				got.hist = execBody(j.Recipe, newEnv(sim), shared)
+				env := newEnv(sim)
+				env.SharedNames = shared
+				got.hist = execBody(j.Recipe, env, sharedFrags)
 			}()
 			for _, op := range j.Recipe.Ops {
 				if op.K == "addfrag" {
@@ -651,6 +710,7 @@ func (propC09) Check(c *Case) (*Violation, *RunInfo) {
 				}
 			}
 		}
+		callerMapIntact("while Files sharing it were built one after another")
 		ri.Nontrivial = sharedRenders >= 2
 		ri.count("share_cases", 1)
 		ri.Key = digest("share", cc.Order, frozen.Jobs)
@@ -662,15 +722,17 @@ func (propC09) Check(c *Case) (*Violation, *RunInfo) {
 		if ji >= len(cc.Jobs) {
 			continue
 		}
-		got, _ := soloRun(cc.Jobs[ji])
+		got, _ := soloRun(cc.Jobs[ji], shared)
 		if viol == nil {
 			if v := compareJob(ji, "after the other jobs (sequential order)", refs[ji], got); v != nil {
 				viol = v
 			}
 		}
 	}
+	callerMapIntact("in the sequential leg")
 	// interleaved leg
-	results, s := runInterleaved(cc, est, pristine, ri)
+	results, s := runInterleaved(cc, est, pristine, shared, ri)
+	callerMapIntact("in the interleaved leg")
 	ri.Steps += s.step
 	frozen.Sched = SchedSpec{Kind: "replay", Switches: s.log}
 	ri.count("baton_switches", len(s.log))
@@ -782,6 +844,8 @@ func (propC09) Shrink(c *Case, v *Violation) []*Case {
 
 // raceBatch runs the jobs on real goroutines (plain package, race-enabled binary).
 func raceBatch(jobs []ConcJob, repeat int) (mismatch string) {
+	table := namesTable(&ConcCase{Jobs: jobs})
+	shared := copyNames(table)
 	// the concurrent batches run first, on whatever state the process is in (cold on the
 	// first round); the solo references are taken afterwards
 	var all [][]jobResult
@@ -799,7 +863,9 @@ func raceBatch(jobs []ConcJob, repeat int) (mismatch string) {
 					}
 				}()
 				<-start
-				results[i].hist = execBody(jobs[i].Recipe, newEnv(nil), nil)
+				env := newEnv(nil)
+				env.SharedNames = shared
+				results[i].hist = execBody(jobs[i].Recipe, env, nil)
 			}(i)
 		}
 		close(start)
@@ -808,7 +874,10 @@ func raceBatch(jobs []ConcJob, repeat int) (mismatch string) {
 	}
 	refs := make([]jobResult, len(jobs))
 	for i, j := range jobs {
-		refs[i], _ = soloRun(j)
+		refs[i], _ = soloRun(j, copyNames(table))
+	}
+	if !sameNames(shared, table) {
+		mismatch = "the names table shared by the jobs was modified by the library"
 	}
 	for _, results := range all {
 		for i := range jobs {
